@@ -10,7 +10,7 @@ RULE = ("seeded pairs of string-valued grammars (shared variable names, same obj
         "PYTHONHASHSEED (fresh names get their index from set order); results extracted, bounded language "
         "(<=4) by the reference and by the library's contains compared with reference set algebra; non-trivial = "
         "both bounded languages non-empty; distinct = (pair digest, order signature)")
-ASSUMPTIONS = ["variable values are strings (the library concatenates them); order seam acts through "
+ASSUMPTIONS = ["variable values are strings or ints; the order seam acts through "
                "PYTHONHASHSEED only", "bounded comparison: words of length <= 4 (<= 3 for closures)"]
 RES = ["#STARTUNION#", "#STARTCONC#", "#STARTCLOS#", "#STARTPOSCLOS#", "#VARPOSCLOS#", "S#SUBS#0", "S#SUBS#1",
        "A#SUBS#1", "#STARTUNION##SUBS#0"]
@@ -28,6 +28,8 @@ def gen(rng, tier):
                 c["vars"] = [ren(v) for v in c["vars"]]
                 c["start"] = ren(c["start"])
                 c["prods"] = [[ren(h), [ren(x) for x in bd]] for h, bd in c["prods"]]
+    if rng.chance(0.12):
+        a["valmode"] = b["valmode"] = "ivar"
     sub_t = rng.pick(a["terms"])
     return {"a": a, "b": b, "same_object": rng.chance(0.1), "sub_terminal": sub_t}
 
@@ -35,7 +37,7 @@ def gen(rng, tier):
 def shrink(case):
     for side in ("a", "b"):
         for c in G.shrink_cfg(case[side]):
-            if c["valmode"] != "str":
+            if c["valmode"] != case[side]["valmode"]:
                 continue
             d = dict(case)
             d[side] = c
@@ -44,6 +46,8 @@ def shrink(case):
             yield d
     if case["same_object"]:
         yield dict(case, same_object=False)
+    if case["a"]["valmode"] == "ivar":
+        yield dict(case, a=dict(case["a"], valmode="str"), b=dict(case["b"], valmode="str"))
 
 
 def _cat(l1, l2, n):
@@ -98,6 +102,8 @@ def run(case, out):
         out.probe("shared_variable_names")
     if any(v in RES for v in ca["vars"] + cb["vars"]):
         out.probe("reserved_fresh_name_used")
+    if ca["valmode"] == "ivar":
+        out.probe("int_valued_variables")
     if not la or not lb:
         out.probe("empty_language_operand")
     if la == {()} or lb == {()}:
